@@ -155,8 +155,21 @@ def check_comp(chk, prog, summ, f, slot_comp, nullable):
     if len(f.params) < 2:
         return
     p0, p1 = "d%d" % f.params[0]["d"], "d%d" % f.params[1]["d"]
-    # K1
-    if f.params[0].get("tp") and f.params[1].get("tp"):
+    # K1 (a static worker that is only ever called - never installed in a table or passed around - is judged where its
+    # callers delegate to it, with the nullness of the arguments they pass: both_null_values follows the delegation)
+    internal = False
+    if f.static and not slot_comp:
+        callee_ids = set()
+        for f2 in f.unit.functions.values():
+            if f2.body is not None:
+                for c in X.calls_in(f2.body):
+                    s0 = X.strip(c["ch"][0])
+                    if s0 is not None and s0.get("k") == "ref":
+                        callee_ids.add(s0["i"])
+        internal = bool(callee_ids) and not any(
+            x.get("k") == "ref" and x.get("rk") == "func" and x.get("n") == f.name and x["i"] not in callee_ids
+            for f2 in f.unit.functions.values() if f2.body is not None for x in walk(f2.body))
+    if f.params[0].get("tp") and f.params[1].get("tp") and not internal:
         undec = [False]
 
         def both_null_values(fn, depth=0):
@@ -296,17 +309,66 @@ def check_comp(chk, prog, summ, f, slot_comp, nullable):
     check_nullflow(chk, prog, summ, f, nullable, "K6")
     # K5 length tie-break
     if mentions_len(f.body, 0) or mentions_len(f.body, 1):
+        # locals that are plain copies of one object's length (mine = self->len; the temporaries of MIN())
+        wr = {}
+        for n in walk(f.body):
+            if n.get("k") == "assign":
+                l = X.strip(n["ch"][0])
+                if l.get("k") == "ref" and l.get("rk") == "local":
+                    wr.setdefault(l["d"], []).append(n["ch"][1] if n.get("op") == "=" else None)
+            elif n.get("k") == "decl":
+                for dcl in n.get("decls", ()):
+                    if dcl.get("init") is not None:
+                        wr.setdefault(dcl["d"], []).append(dcl["init"])
+        lencopy = {}
+        for d, ws in wr.items():
+            if len(ws) == 1 and ws[0] is not None:
+                r = X.strip(ws[0])
+                if r is not None and r.get("k") == "member" and r.get("n") == "len":
+                    for i in (0, 1):
+                        if mentions_len(r, i):
+                            lencopy[d] = i
+
+        def is_len(e, i):
+            e = X.strip(e)
+            if e is None:
+                return False
+            if e.get("k") == "ref" and lencopy.get(e.get("d")) == i:
+                return True
+            return e.get("k") == "member" and e.get("n") == "len" and mentions_len(e, i)
+
+        def decides(n):
+            """is the comparison used to decide something (a branch, a constant verdict), as opposed to selecting one of the
+            two lengths as a value (MIN / MAX, `common = a < b ? a : b`)?"""
+            cur = n
+            par = f.parent.get(cur["i"])
+            while par is not None:
+                k = par.get("k")
+                if k in ("paren", "icast", "cast") or (k == "un" and par.get("op") == "!") or (k == "bin" and par.get("op") in ("&&", "||", "==", "!=")):
+                    cur, par = par, f.parent.get(par["i"])
+                    continue
+                if k in ("if", "while", "for", "do"):
+                    return par.get("cond") is cur
+                if k == "cond":
+                    if par["ch"][0] is not cur:
+                        return False
+                    return X.const_val(par["ch"][1]) is not None and X.const_val(par["ch"][2]) is not None
+                if k == "return":
+                    return True
+                if k in ("assign", "decl"):
+                    return True          # a flag / verdict computed from the comparison
+                return False
+            return False
         ok = False
         for n in walk(f.body):
             if n.get("k") == "bin" and n.get("op") in ("<", ">", "<=", ">=", "==", "!=", "-"):
                 a, b = n["ch"][0], n["ch"][1]
-                if (mentions_len(a, 0) and mentions_len(b, 1)) or (mentions_len(a, 1) and mentions_len(b, 0)):
-                    # comparisons hidden inside MIN()/MAX() operate on copies and do not decide the result
+                if ((is_len(a, 0) and is_len(b, 1)) or (is_len(a, 1) and is_len(b, 0))) and decides(n):
                     ok = True
         chk.ob("K5", f.name, "length-tie-break", ok, loc=loc,
-               detail="%s bounds its comparison by a length but never compares self->len with other->len: an object that is a "
-                      "proper prefix of the other compares EQUAL" % f.name,
-               proof="self->len is compared with other->len")
+               detail="%s bounds its comparison by a length but never decides anything on self->len against other->len: an object "
+                      "that is a proper prefix of the other compares EQUAL" % f.name,
+               proof="self->len is compared with other->len in a deciding position (branch or constant verdict)")
 
 
 def copy_cursor_locals(f, result_vars):
